@@ -111,7 +111,7 @@ func worker(chk *checks.Check, tier string, seed int64, k, n int) {
 	}
 	ctx := report.NewCtx(chk.Meta.Property, tier, seed, k, n, deadline)
 	// watchdog: no progress for a long time = the code under test hangs (or the harness does)
-	hang := 90 * time.Second
+	hang := 240 * time.Second
 	if s := os.Getenv("VERIF_HANG_S"); s != "" {
 		if v, err := strconv.Atoi(s); err == nil {
 			hang = time.Duration(v) * time.Second
